@@ -95,7 +95,7 @@ impl Prop for C18 {
                 0..=tier.pick(30, 100),
             ),
             0u8..2,
-            prop_oneof![tier.pick(60, 24) => Just(0u16), 1 => Just(tier.pick(16u16, 40u16)), 1 => Just(tier.pick(17u16, 41u16))],
+            prop_oneof![tier.pick(60, 80) => Just(0u16), 1 => Just(tier.pick(16u16, 30u16)), 1 => Just(tier.pick(17u16, 31u16))],
         )
             .prop_map(|(ops, n_extra, inject)| Case { ops, n_extra, scale: 0, inject })
             .boxed()
